@@ -21,7 +21,7 @@ ASSUMPTIONS = [
     "cfg(kani) harness module appended to a scratch copy; the macro crate's encode-set constants are extracted textually into the harness on every run",
 ]
 NOT_DECIDED = [
-    "server-side parse_query_params (HashMap + form_urlencoded) and path_param decoding beyond one character",
+    "server-side parse_query_params (HashMap + form_urlencoded; a one-pair harness over form_urlencoded::parse did not finish in 10 min) and path_param decoding beyond one character",
     "values longer than one character through the real BytesMut path (per-character concatenation is percent-encoding's contract)",
     "ToPlain wrappers push_path_parameter / push_query_parameter and the set query helper",
 ]
@@ -83,8 +83,6 @@ _ALL_H = [
         H("push_escaped_ascii_60_7f", "C07.K.push_escaped.ascii_60_7f", ["UriBuilder::push_escaped"], "real push_escaped, bytes 0x60-0x7f", tier="thorough", timeout=900),
         H("percent_decode_inverts_escape_ascii", "C07.K.decode_inverse.ascii", ["UriBuilder::push_escaped", "conjure-http/src/private/server.rs::fn path_param"],
           "percent-decoding what push_escaped appends for an ASCII character yields that character"),
-        H("form_urlencoded_inverts_escape_ascii", "C07.K.decode_inverse.query_ascii", ["UriBuilder::push_escaped", "conjure-http/src/private/server.rs::fn parse_query_params"],
-          "form_urlencoded::parse (what parse_query_params uses) of \"k=\" ++ escape(c) yields exactly the pair (k, c) for every ASCII c ('+' and '%' included)", tier="thorough", timeout=600),
         H("push_escaped_two_byte_utf8", "C07.K.push_escaped.two_byte_utf8", ["UriBuilder::push_escaped"],
           "every 2-byte UTF-8 sequence is fully %HH-encoded", kind="bounded", bound="all 2-byte UTF-8 sequences", tier="thorough", timeout=1500),
         H("push_query_parameter_raw_contract", "C07.K.push_query_parameter_raw", ["UriBuilder::push_query_parameter_raw"],
